@@ -1001,7 +1001,8 @@ func (g *gen) poolCases() []Case {
 		loop + `|` + nested,
 		`{@map {1} {@filter {@split {0} ,} {gt {0} 2}}}/` + loop,
 	} {
-		e := &EqIn{Kind: "lib", Tmpl: t, Ctxs: []Ctx{mk("1", "1,2\x003,4\x0010,20,30"), mk("0", "5\x007,1"), mk()}}
+		// (no all-empty context here: at run time it would cost another 1,000,000 rounds per builder)
+		e := &EqIn{Kind: "lib", Tmpl: t, Ctxs: []Ctx{mk("1", "1,2\x003,4\x0010,20,30"), mk("0", "5\x007,1")}}
 		cases = append(cases, mkEqCase(e, runEq(e), []string{"pool", "for-probe-to-cap"}))
 	}
 	// modelled nested binders, after the compiles above
@@ -1109,7 +1110,7 @@ func (g *gen) floatFoldCases() []Case {
 func (g *gen) constLoopCases() []Case {
 	r := g.r
 	mk := func(vals ...string) Ctx { return Ctx{M: vals, K: map[string]string{}} }
-	sizes := []int{9999, 10001, 20000, 65537, 250000, r.Range(10002, 99999), r.Range(100, 9998)}
+	sizes := []int{9999, 10001, 20000, 65537, 250000, r.Range(10002, 60000), r.Range(100, 9998)}
 	var cases []Case
 	for k, n := range sizes {
 		N := fmt.Sprint(n)
@@ -1119,20 +1120,16 @@ func (g *gen) constLoopCases() []Case {
 			}
 			return `{@for 1 {lte {1} ` + bound + `} {sumi {0} 2}}` // condition on the round counter
 		}
-		direct := `{@len ` + loop(N) + `}/{@select ` + loop(N) + ` -1}`
-		// written bound (folded under the probe) vs the plain builder; for one size also vs the bound read
-		// from a named key, which the probe cannot fold (inside the binder {0} {1} are the loop value and the
-		// round counter, keys pass through). A key-bound loop costs 1,000,000 probe rounds per enclosing stage.
-		kctx := Ctx{M: []string{"x"}, K: map[string]string{"n": N}}
-		items := []AltItem{{direct, kctx}}
-		if k == 2 {
-			items = append(items, AltItem{`{@len ` + loop("{n}") + `}/` + fmt.Sprint(map[bool]int{true: n - 1, false: 2*n + 1}[k%2 == 0]), kctx})
-			items[0].Tmpl = `{@len ` + loop(N) + `}/{@select ` + loop(N) + ` -1}`
+		direct := `{@len ` + loop(N) + `}` // one loop per template: every enclosing stage probes it again
+		if k == 1 {
+			direct += `/{@select ` + loop(N) + ` -1}`
 		}
+		// written bound (folded under the probe) vs the plain builder, which computes it at run time
+		items := []AltItem{{direct, Ctx{M: []string{"x"}, K: map[string]string{}}}}
 		e := &EqIn{Kind: "alt", Alts: [][]AltItem{items}}
 		tags := []string{"const-loop", fmt.Sprintf("const-loop:%d", n)}
 		cases = append(cases, mkEqCase(e, runEq(e), tags))
-		if k < 5 {
+		if k == 1 || k == 2 { // (every builder re-loads the file: each definition is probed several times)
 			// inside a funcs-file function: a constant body next to a parameter; the start value passed as a
 			// constant argument (the whole call is then constant)
 			start := "0"
@@ -1142,7 +1139,7 @@ func (g *gen) constLoopCases() []Case {
 			from := strings.Replace(loop(N), "{@for "+start+" ", "{@for {0} ", 1)
 			f := &EqIn{Kind: "lib", Funcs: "cnt {@len " + loop(N) + "}-{0}\nfrom {@len " + from + "}\n",
 				Call: "{cnt {0}} {from " + start + "}", Inlined: "{@len " + loop(N) + "}-{0} {@len " + loop(N) + "}",
-				Ctxs: []Ctx{mk("x"), mk()}}
+				Ctxs: []Ctx{mk("x")}}
 			cases = append(cases, mkEqCase(f, runEq(f), append(tags, "const-loop-in-function")))
 		}
 	}
@@ -1254,6 +1251,76 @@ func (g *gen) shadowCases() []Case {
 	// the binary: the inlined template runs without --funcs, so it is inlined completely
 	e := &EqIn{Kind: "cli", Funcs: "upper <{0}>\nshout {upper {0}}!\n", Call: "{upper " + w1 + "} {shout {0}}", Inlined: "<" + w1 + "> <{0}>!", Data: []string{w2}}
 	cases = append(cases, mkEqCase(e, runEq(e), []string{"cli", "funcs-file", "shadows-builtin"}))
+	return cases
+}
+
+
+// numeric helpers around 2^53 .. 2^63, where an integer and a float64 reading of the same numeral differ:
+// a constant operand written in the template vs the same numeral read from a group (a constant may get its
+// own parse path), and a funcs-file function over its parameters called with the constant vs the inlined
+// body; optimising and plain builder. Equality-only.
+func (g *gen) bigNumCases() []Case {
+	r := g.r
+	bases := []int64{1 << 53, 1700000000000000000, 1<<62 + 12345, 9223372036854775000, 4611686018427387904, int64(r.Range(1, 1<<30)) << 31}
+	var nums []string
+	for _, b := range bases {
+		for _, d := range []int64{-2, -1, 0, 1, 2} {
+			nums = append(nums, fmt.Sprint(b+d), fmt.Sprint(-(b + d)))
+		}
+	}
+	nums = append(nums, "9223372036854775807", "-9223372036854775808", "9007199254740993", "0", "1")
+	pairs := func(n int) [][2]string { // (value, threshold): equal, or next to each other (same float64 above 2^53)
+		var ps [][2]string
+		for i := 0; i < n; i++ {
+			k := r.Intn(len(bases) * 10)
+			a := nums[k]
+			var b string
+			switch r.Intn(3) {
+			case 0:
+				b = a
+			case 1:
+				b = nums[(k+2)%(len(bases)*10)] // same sign, the next offset
+			default:
+				b = Pick(r, nums)
+			}
+			ps = append(ps, [2]string{a, b})
+		}
+		// the documented pair
+		ps = append(ps, [2]string{"1700000000000000001", "1700000000000000000"}, [2]string{"9007199254740993", "9007199254740992"})
+		return ps
+	}
+	var cases []Case
+	for _, op := range []string{"gt", "gte", "lt", "lte", "eq", "neq", "maxi", "mini", "subi", "divi", "modi", "sumf"} {
+		var alts [][]AltItem
+		for _, p := range pairs(10) {
+			ctx := Ctx{M: []string{p[0], p[1]}, K: map[string]string{}}
+			alts = append(alts,
+				[]AltItem{{"{" + op + " {0} " + p[1] + "}", ctx}, {"{" + op + " {0} {1}}", ctx}},  // constant on the right
+				[]AltItem{{"{" + op + " " + p[0] + " {1}}", ctx}, {"{" + op + " {0} {1}}", ctx}}) // constant on the left
+		}
+		e := &EqIn{Kind: "alt", Alts: alts}
+		cases = append(cases, mkEqCase(e, runEq(e), []string{"big-numbers", "big-const-vs-group", "big-op:" + op}))
+	}
+	// through funcs-file functions (and a later definition calling an earlier one)
+	for k, op := range []string{"gt", "gte", "lt", "lte"} {
+		p := pairs(3)[k%3]
+		q := [2]string{"1700000000000000001", "1700000000000000000"}
+		funcs := "cmp {" + op + " {0} {1}}\nboth {cmp {0} {1}}/{cmp {1} {0}}/{maxi {0} {1}}\n"
+		call := "{cmp {0} " + p[1] + "} {cmp " + p[0] + " {1}} {both {0} " + q[1] + "} {cmp {2} " + q[1] + "}"
+		inl := "{" + op + " {0} " + p[1] + "} {" + op + " " + p[0] + " {1}} {cmp {0} " + q[1] + "}/{cmp " + q[1] + " {0}}/{maxi {0} " + q[1] + "} {" + op + " {2} " + q[1] + "}"
+		e := &EqIn{Kind: "lib", Funcs: funcs, Call: call, Inlined: inl,
+			Ctxs: []Ctx{{M: []string{p[0], p[1], q[0]}, K: map[string]string{}}, {M: []string{q[0], q[1], q[1]}, K: map[string]string{}}, {M: []string{}, K: map[string]string{}}}}
+		cases = append(cases, mkEqCase(e, runEq(e), []string{"big-numbers", "big-call-vs-inline", "big-op:" + op}))
+	}
+	// helpers that insist on constant parameters: the constant in a function body vs inline, big values
+	{
+		big := fmt.Sprint(bases[1])
+		funcs := "bk {bucket {0} 1000000000000000000}|{clamp {0} -" + big + " " + big + "}|{round {0} 2}|{bucketrange {0} 4611686018427387904}\n"
+		inl := "{bucket {0} 1000000000000000000}|{clamp {0} -" + big + " " + big + "}|{round {0} 2}|{bucketrange {0} 4611686018427387904}"
+		e := &EqIn{Kind: "lib", Funcs: funcs, Call: "{bk {0}}", Inlined: inl,
+			Ctxs: []Ctx{{M: []string{"1700000000000000001"}, K: map[string]string{}}, {M: []string{"-9007199254740993"}, K: map[string]string{}}, {M: []string{"9223372036854775807"}, K: map[string]string{}}, {M: []string{}, K: map[string]string{}}}}
+		cases = append(cases, mkEqCase(e, runEq(e), []string{"big-numbers", "big-call-vs-inline"}))
+	}
 	return cases
 }
 
@@ -1985,6 +2052,15 @@ func fixedCases() []Input {
 	}
 }
 
+func timed(name string, f func() []Case) []Case {
+	t0 := time.Now()
+	cs := f()
+	if os.Getenv("VERIF_C10_TIMING") != "" {
+		fmt.Fprintf(os.Stderr, "%-20s %3d cases %6.2fs\n", name, len(cs), time.Since(t0).Seconds())
+	}
+	return cs
+}
+
 func c10Gen(r *Rng, n int, tier string) []Case {
 	logger.DeferLogs()
 	g := &gen{r: r}
@@ -1997,18 +2073,19 @@ func c10Gen(r *Rng, n int, tier string) []Case {
 	if tier != "quick" {
 		nTimed = 40
 	}
-	cases = append(cases, g.poolCases()...)
-	cases = append(cases, g.whitespaceCases()...)
-	cases = append(cases, g.operandOrderCases()...)
-	cases = append(cases, g.shadowCases()...)
-	cases = append(cases, g.selfNestedCases()...)
-	cases = append(cases, g.eqLibCases()...)
-	cases = append(cases, g.eqSeqCases()...)
-	cases = append(cases, g.eqMathCases()...)
-	cases = append(cases, g.floatFoldCases()...)
-	cases = append(cases, g.constLoopCases()...)
-	cases = append(cases, g.eqFnTimeCases()...)
-	cases = append(cases, g.eqCliCases()...)
+	cases = append(cases, timed("poolCases", func() []Case { return g.poolCases() })...)
+	cases = append(cases, timed("whitespaceCases", func() []Case { return g.whitespaceCases() })...)
+	cases = append(cases, timed("operandOrderCases", func() []Case { return g.operandOrderCases() })...)
+	cases = append(cases, timed("shadowCases", func() []Case { return g.shadowCases() })...)
+	cases = append(cases, timed("selfNestedCases", func() []Case { return g.selfNestedCases() })...)
+	cases = append(cases, timed("eqLibCases", func() []Case { return g.eqLibCases() })...)
+	cases = append(cases, timed("eqSeqCases", func() []Case { return g.eqSeqCases() })...)
+	cases = append(cases, timed("eqMathCases", func() []Case { return g.eqMathCases() })...)
+	cases = append(cases, timed("floatFoldCases", func() []Case { return g.floatFoldCases() })...)
+	cases = append(cases, timed("constLoopCases", func() []Case { return g.constLoopCases() })...)
+	cases = append(cases, timed("bigNumCases", func() []Case { return g.bigNumCases() })...)
+	cases = append(cases, timed("eqFnTimeCases", func() []Case { return g.eqFnTimeCases() })...)
+	cases = append(cases, timed("eqCliCases", func() []Case { return g.eqCliCases() })...)
 	if rareBin != "" {
 		defer os.Remove(rareBin)
 	}
@@ -2047,7 +2124,8 @@ func main() {
 			"14 formula cases ({! ..}, one per operator * & && || + - / | % ^ == < >= <<): a constant operand written in the formula (0 1 2 0.5 (3-3) (0-1) (2*0) (1||0), on either side, bare or inside a larger formula) vs the same constant read from a group, for values of the variable among 5 -3 0 2.5 -0 empty missing text inf -inf nan 1e400, optimising and plain builder: all equal (compile-time folding must give the run-time value); " +
 			"7 self-nested cases (a funcs-file function called inside each of its own argument positions to depth 2, in its last position to depth 3, and in every position at once; bodies over format, tab, if, sumi, sumf, @map): call vs completely inlined body, optimising and plain builder, then 20 rounds from 4 goroutines; " +
 			"8 builtin-shadowing cases (funcs-file definitions named upper, sumi, if, len, lower, eq, tab, coalesce - modelled - and format, hf, sumf, json - equality-only - used directly and by a later definition, registered through funclib; one through the rare binary): the file's definition wins, call = inlined body; " +
-			"12 constant-loop cases (an @for that never reads the context, 9,999 / 10,001 / 20,000 / 65,537 / 250,000 rounds and two seeded sizes, condition on the value or on the round counter, reduced by @len and @select -1): the bound written in the template vs read from a named key, and inside funcs-file functions (constant loop next to a parameter, start value passed as a constant argument) vs the inlined body; optimising and plain builder, all equal; " +
+			"17 big-number cases (gt gte lt lte eq neq maxi mini subi divi modi sumf; values and thresholds 2^53, 1.7e18, 2^62, near 2^63 and a seeded base, each with offsets -2..2 and negated, MaxInt64 / MinInt64): per helper 24 pairs 'constant operand written in the template (left or right) vs the same numeral read from a group'; 4 funcs-file cases (a comparison over its parameters, a later definition calling it, called with the constant threshold) and one with bucket / clamp / round / bucketrange constants inside a body, vs the inlined body; optimising and plain builder, all equal; " +
+			"12 constant-loop cases (an @for that never reads the context, 9,999 / 10,001 / 20,000 / 65,537 / 250,000 rounds and two seeded sizes, condition on the value or on the round counter, reduced by @len, one also by @select -1): directly, and inside funcs-file functions (constant loop next to a parameter, start value passed as a constant argument) vs the inlined body; optimising and plain builder, all equal; " +
 			"20 float-fold cases (sumf subf multf divf, 3-5 operands, constants first / last / interleaved / single / random, values among 0.1 0.2 0.3 0.7 1e16 -1e16 1 3 10 1e-17 1e308 0.5 -0.1 1e-320 where re-association changes the result): per operator one case of 15 pairs 'constant written in the template vs the same constant read from a group' and 4 cases of a funcs-file function over its parameters called with constant and mixed arguments vs the inlined body; optimising and plain builder, all equal; " +
 			"18 sequence cases (time / buckettime / timeformat / timeattr with explicit format and time-zone arguments, named formats, a constant prefix plus a capture, a named key, nested in sumi/timeformat, durations, floats/json/format; 3 with the auto-detected layout): three evaluation sequences per template on ONE compiled expression - the all-empty context (the optimiser's probe value) first, unparseable values, the same value on consecutive evaluations, a bad value first, a seeded shuffle - step by step: optimising = plain = a fresh plain compile = a fresh optimising compile of that step (for the auto-detected layout, which is remembered by design, only optimising = plain); " +
 			"11 funcs-file cases whose body reaches time/buckettime (auto-detected layout, remembered by the stage), timeformat, timeattr, duration through {i}, a later definition calling an earlier one, called with arguments mixing constant text and captures: call (optimising, plain) = inlined body (optimising, plain) on every context, every builder compiled freshly; " +
